@@ -191,12 +191,16 @@ impl Language for Go {
     fn write_type_alias(&mut self, w: &mut dyn Write, ty: &RustTypeAlias) -> std::io::Result<()> {
         write_comments(w, 0, &ty.comments)?;
 
+        // The names of the types the alias stands for get the same acronym treatment as
+        // the definitions of those types.
+        let target = self
+            .format_type(&ty.r#type, &[])
+            .map_err(|e| std::io::Error::new(std::io::ErrorKind::Other, e))?;
         writeln!(
             w,
             "type {} {}\n",
             self.acronyms_to_uppercase(&ty.id.original),
-            self.format_type(&ty.r#type, &[])
-                .map_err(|e| std::io::Error::new(std::io::ErrorKind::Other, e))?
+            self.acronyms_to_uppercase(&target)
         )?;
 
         Ok(())
